@@ -7,7 +7,7 @@ from ..storecheck import HistGen, Runner, strip_now
 from ..absstore import Abs
 from ..gen import ev_tok, AUTHORS
 
-THEOREMS = ['store_crash_consistent', 'remove_crash_consistent', 'vanish_crash_subset', 'creation_crash_consistent', 'reopen_end']
+THEOREMS = ['store_crash_consistent', 'remove_crash_consistent', 'vanish_crash_subset', 'creation_crash_consistent', 'reopen_end', 'store_kill_map_states', 'creation_map_states']
 
 GROW = ('es_store:grow', 'es_store:grow_setlen', 'es_store:grow_resized')
 
@@ -41,12 +41,15 @@ def battery_lines(ids, offs, tables):
         ls.append('FND _ %s _ _ - - - 1 0 0 m' % hx(pk))
     for t in tables:
         ls.append('XDP ' + t)
+    ls.append('MLN')      # the length of the map file: judged separately (see map_state), never line-wise
     return ls
 
 
 def norm(line, reply):
     """observables: everything except the map's end marker (orphan bytes of an interrupted append)"""
     r = strip_now(reply)
+    if line == 'MLN':
+        return 'mln'
     if line == 'STA':
         r = ' '.join(x for x in r.split(' ') if not x.startswith('end='))
     return r
@@ -241,10 +244,13 @@ def run():
                 b1 = [norm(l, r) for l, r in zip(t['bat'], mo[:nb])]
                 cc = [r.split(' ')[0] if l.startswith('STO') else norm(l, r) for l, r in zip(t['cont'], mo[nb:nb + nc])]
                 b2 = [norm(l, r) for l, r in zip(t['bat'], mo[nb + nc:2 * nb + nc])]
+                raw.append(mo[:nb])
                 return b1, cc, b2
             key = (t['h'], k, len(t['cont']))
             if key not in refs:
-                refs[key] = (ref_run(c.worker, False, 'a'), ref_run(c.worker, True, 'b'), ref_run(M, False, 'ma'), ref_run(M, True, 'mb'))
+                raw = []
+                refs[key] = (ref_run(c.worker, False, 'a'), ref_run(c.worker, True, 'b'), ref_run(M, False, 'ma'), ref_run(M, True, 'mb'), None)
+                refs[key] = refs[key][:4] + (raw[0],)
                 # correspondence of the uninterrupted states (lookups, markers, counts; queries are C05's business)
                 for which, wi, mi in (('before', 0, 2), ('after', 1, 3)):
                     for l, x, y in zip(t['bat'], refs[key][wi][0], refs[key][mi][0]):
@@ -277,6 +283,33 @@ def run():
                     ops[k]['op'], t['point'], t['n'], [(l[:20], r[:30], a[:30], b[:30]) for l, r, a, b in diff]), rep)
                 continue
             c.count('recovered:' + which)
+            # ---- the map file itself: (file length, end marker) after the reopen must be one of the durable states the
+            # model says the interrupted append can leave (as the next open sees them), and the file must not have shrunk
+            if ops[k]['op'] == 'store' and t['point'].startswith('es_store'):
+                def map_state(batlines, replies):
+                    fl = end = None
+                    for l_, r_ in zip(batlines, replies):
+                        if l_ == 'MLN' and r_.strip().isdigit():
+                            fl = int(r_)
+                        if l_ == 'STA':
+                            kv = dict(x.split('=') for x in strip_now(r_).split(' ') if '=' in x)
+                            end = int(kv['end']) if kv.get('end', '').isdigit() else None
+                    return fl, end
+                got = map_state(t['bat'], out[1:1 + nb])
+                before = map_state(t['bat'], refs[key][4])
+                if None not in got and None not in before:
+                    from ..storecheck import encode_event
+                    size = len(encode_event(ops[k]['ev']))
+                    mr = M.run(['EMX %d %d %d' % (before[0], before[1], size)])[0]
+                    allowed = {tuple(int(y) for y in x.split(':')) for x in mr[3:].split(',')} if mr.startswith('ok ') else set()
+                    c.count('map_state_checked')
+                    if got[0] < before[0]:
+                        c.violation('oracle', 'store killed at %s #%d: after the reopen the map file is shorter (%d bytes) than before the call (%d)' % (
+                            t['point'], t['n'], got[0], before[0]), rep)
+                        continue
+                    if got not in allowed:
+                        c.violation('corr', 'store killed at %s #%d: map file (length, end) = %s after the reopen; the model allows %s' % (
+                            t['point'], t['n'], got, sorted(allowed)), rep, found=False)
             if RC != exp[1] or not same(R2, exp[2]):
                 c.violation('oracle', 'after a kill at %s #%d the continuation does not behave as on the uninterrupted (%s) state: %s vs %s' % (
                     t['point'], t['n'], which, RC, exp[1]), rep)
